@@ -142,6 +142,6 @@ Definition parse_lscr (d : bytes) (names : list string) (codec floats : oracle) 
   let! props := block_names d names (h_prb_offset h) (h_grb_offset h) in
   let! globs := block_names d names (h_grb_offset h) (h_frb_offset h) in
   let! lf := func_names (Z.to_nat (h_frb_n h)) d names (h_frb_offset h) in
-  let c := Build_ctx consts bpc names lf props false in
+  let c := Build_ctx consts bpc names lf props globs false in
   let! (r', _, funcs) := frb_loop (Z.to_nat (h_frb_n h)) d c r (h_frb_offset h) in
   Ok (r', Build_script props globs funcs (h_scr_num h) (h_cont h) factory).
